@@ -223,10 +223,18 @@ class FixedMarginBusiness(Sector):
                              '%s * %s' % (format_parameter(wage_share, 3), market_sup_good))
             self.SetEquationRightHandSide('PROF', '%s * %s' % (format_parameter(self.ProfitMargin, 3), market_sup_good))
         for s in self.Parent.SectorList:
+            if isinstance(s, FixedMarginBusiness):
+                # Another business (which has a DIV variable once it pays dividends) is not the owner.
+                continue
             if 'DIV' in s.EquationBlock.Equations:
                 Logger('Adding dividend flow', priority=5)
                 self.AddCashFlow('-DIV', 'PROF', 'Dividends paid', is_income=False)
-                s.AddCashFlow('DIV', self.GetVariableName('PROF'), 'Dividends received', is_income=True)
+                if s.EquationBlock['DIV'].RHS() in ('', '0.0'):
+                    s.AddCashFlow('DIV', self.GetVariableName('PROF'), 'Dividends received', is_income=True)
+                else:
+                    # Another business already pays dividends to this sector: the cash flow DIV is
+                    # already booked, add this business's profits to the amount received.
+                    s.AddTermToEquation('DIV', self.GetVariableName('PROF'))
                 break
 
 
